@@ -123,6 +123,8 @@ def literal_names(mod, node) -> set[str]:
             if isinstance(n, (ast.FunctionDef, ast.AsyncFunctionDef, ast.ClassDef)):
                 lit.add(n.name)
             elif isinstance(n, (ast.Import, ast.ImportFrom)):
+                if isinstance(n, ast.ImportFrom) and n.module == "__future__":
+                    continue  # `from __future__ import annotations` binds nothing a pattern could mean
                 for a in n.names:
                     lit.add((a.asname or a.name).split(".")[0])
             elif isinstance(n, ast.Name) and isinstance(n.ctx, ast.Store):
